@@ -412,5 +412,6 @@ func TestCheck(t *testing.T) {
 		vcommon.E("source-matrix", enumMatrix, checkSource),
 		vcommon.E("readers-matrix", enumReaderMatrix, checkReaders),
 		vcommon.E("near-valid-strings", enumNearValid, checkNearValid),
+		vcommon.E("apply-matrix", enumApplyMatrix, checkApply),
 	)
 }
